@@ -155,7 +155,12 @@ defjvp(anp.gradient, "same")
 defjvp(anp.repeat, "same")
 defjvp(anp.tile, "same")
 defjvp(anp.transpose, "same")
-defjvp(anp.sum, "same")
+def fwd_grad_np_sum(g, ans, x, *args, **kwargs):
+    kwargs.pop("initial", None)  # a constant offset of the sum, not of its tangent
+    return anp.sum(g, *args, **kwargs)
+
+
+defjvp(anp.sum, fwd_grad_np_sum)
 defjvp(anp.mean, "same")
 defjvp(
     anp.prod, lambda g, ans, x, axis=None, keepdims=False: ans * anp.sum(g / x, axis=axis, keepdims=keepdims)
